@@ -545,7 +545,7 @@ func (h *Hist) reopen(when string, op Op) {
 	}
 	match := -1
 	for p := n; p >= 0; p-- {
-		if got.Equal(h.States[p]) || (excluded("struct-only-into-empty-store") && nodeKeyless(got) && nodeKeyless(h.States[p])) {
+		if storeEqual(got, h.States[p]) {
 			match = p
 			break
 		}
@@ -554,7 +554,7 @@ func (h *Hist) reopen(when string, op Op) {
 		h.Failf("%s: content after early close and reopen equals no prefix of the %d executed batches (last completed round covered %d); vs full reference: %s; vs covered prefix: %s",
 			when, n, lower, got.Diff(h.States[n], "reopened"), got.Diff(h.States[lower], "reopened"))
 	}
-	if match < lower && !got.Equal(h.States[lower]) {
+	if match < lower && !storeEqual(got, h.States[lower]) {
 		h.Failf("%s: reopened content is the state after %d batches, but a completed round had covered %d", when, match, lower)
 	}
 	if match < n {
